@@ -268,19 +268,51 @@ class StmtMixin:
                 and self.simple_branch(node.orelse) and not any(isinstance(n, ast.Call) for n in ast.walk(node.test)):
             c = z3.simplify(zbool(c))
             if not (z3.is_true(c) or z3.is_false(c)):
+                # a branch whose condition contradicts the path condition is not evaluated at all (its reads may be
+                # undefined there, e.g. a table that is NULL in this configuration)
+                t_ok, f_ok = self.is_feasible(st, c), self.is_feasible(st, z3.Not(c))
+                if not t_ok and not f_ok:
+                    raise PathEnd()
+                if t_ok != f_ok:
+                    st.assume(c if t_ok else z3.Not(c))
+                    self.exec_block(node.body if t_ok else node.orelse, st)
+                    return
                 base = dict(st.vars)
+                # facts assumed while a branch is evaluated (e.g. "the pointer just dereferenced is not NULL") hold under the
+                # branch condition only: they are re-stated as implications before the branches are merged
+                n0 = len(st.pc)
+                heap0 = dict(st.heap)
                 self.guards.append(c)
+                dead_then = dead_else = False
                 try:
                     self.exec_block(node.body, st)
+                except PathEnd:
+                    # the branch cannot be completed (its guarded obligation says why): only the other branch continues
+                    dead_then = True
                 finally:
                     self.guards.pop()
+                st.pc = list(st.pc[:n0]) + [z3.Implies(c, f) for f in st.pc[n0:]]
                 v_then = st.vars
                 st.vars = dict(base)
+                if dead_then:
+                    st.heap = heap0
+                    st.assume(z3.Not(c))
+                    self.exec_block(node.orelse, st)
+                    return
+                n1 = len(st.pc)
                 self.guards.append(z3.Not(c))
                 try:
                     self.exec_block(node.orelse, st)
+                except PathEnd:
+                    dead_else = True
                 finally:
                     self.guards.pop()
+                if dead_else:
+                    st.pc = list(st.pc[:n1])
+                    st.assume(c)
+                    st.vars = v_then
+                    return
+                st.pc = list(st.pc[:n1]) + [z3.Implies(z3.Not(c), f) for f in st.pc[n1:]]
                 v_else = st.vars
                 merged = dict(v_else)
                 for k in set(v_then) | set(v_else):
